@@ -30,15 +30,13 @@ TRUSTED = [
     "kernel semantics of recvmsg on a stream socket (zero-capacity read: EAGAIN on an empty queue, 0 otherwise) — probed on "
     "Linux for AF_UNIX and TCP and exercised through `sock base real`",
     "indeterminate memory is given fixed values in the harness build only: automatic variables 0xAA "
-    "(-ftrivial-auto-var-init=pattern), heap 0xBE (ASan malloc fill); the harness TU is built with -fno-sanitize=alignment "
-    "(the misaligned 16-bit loads of agent.c are a recorded finding, re-checked on the sock_drv_ub build)",
+    "(-ftrivial-auto-var-init=pattern), heap 0xBE (ASan malloc fill)",
     "frames that pass the STUN length test are routed to conn_check_handle_inbound_stun (C03-C06); the generators keep RFC 4571 "
     "payloads out of that class, the model abstracts it as `handled`",
     "constants 65536 (recv_buf), 0xF800 (packet split), 1024 (initial ring), 65537 (rfc4571_buffer) are literals in the C source: "
     "tied by the boundary cases of the differential stream, not regenerated",
 ]
-EXTRA = ("-ftrivial-auto-var-init=pattern", "-fno-sanitize=alignment", "-I" + os.path.join(vlib.MESON, "agent"))
-EXTRA_UB = ("-ftrivial-auto-var-init=pattern", "-I" + os.path.join(vlib.MESON, "agent"))
+EXTRA = ("-ftrivial-auto-var-init=pattern", "-I" + os.path.join(vlib.MESON, "agent"))
 
 HELLO = {
     "google": bytes.fromhex(
@@ -55,9 +53,9 @@ def hx(b):
 
 # --------------------------------------------------------------------------- reference decoders
 def ref_turntcp(mode, s):
-    """independent framing decoder.  Returns (messages, status, zero_at) where status is 'ok' (stream
-    ends between or inside frames), 'error' (a correct decoder must refuse), 'zero' (a frame whose
-    payload read is empty: behaviour of the stack depends on the kernel, see KNOWN_FINDINGS)."""
+    """independent framing decoder.  Returns (messages, status, None) where status is 'ok' (stream
+    ends between or inside frames) or 'error' (a correct decoder must refuse).  A frame without payload is
+    a frame like any other (an empty GOOGLE frame carries nothing and is not handed up)."""
     msgs, i = [], 0
     if mode == "msn":
         return [], "error", None
@@ -70,8 +68,6 @@ def ref_turntcp(mode, s):
             tot = exp + (-exp % 4)
             if tot > 65536:
                 return msgs, "error", None
-            if tot == 4:
-                return msgs, "zero", i
             if len(s) - i < tot:
                 return msgs, "ok", None
             msgs.append(s[i:i + tot]); i += tot
@@ -79,11 +75,11 @@ def ref_turntcp(mode, s):
             if len(s) - i < 2:
                 return msgs, "ok", None
             L = int.from_bytes(s[i:i + 2], "big")
-            if L == 0:
-                return msgs, "zero", i
             if len(s) - i < 2 + L:
                 return msgs, "ok", None
-            msgs.append(s[i + 2:i + 2 + L]); i += 2 + L
+            if L:
+                msgs.append(s[i + 2:i + 2 + L])
+            i += 2 + L
         else:  # oc2007
             if len(s) - i < 4:
                 return msgs, "ok", None
@@ -92,8 +88,6 @@ def ref_turntcp(mode, s):
             L = int.from_bytes(s[i + 2:i + 4], "big")
             if L + 2 > 65536:
                 return msgs, "error", None
-            if L == 0:
-                return msgs, "zero", i
             if len(s) - i < 4 + L:
                 return msgs, "ok", None
             msgs.append(s[i + 2:i + 4 + L]); i += 4 + L
@@ -609,10 +603,6 @@ KF_PSSL = "pseudossl.c: the server hello must arrive in a single read; a hello c
 KF_HTTP_COAL = "http.c: tunnelled bytes read together with the end of the proxy reply are returned with length 0 (buffers[].size overwritten instead)"
 KF_HTTP_CL = "http.c: Content-Length value cut by a read boundary reads one byte past the received data (stale/uninitialised ring byte)"
 KF_HTTP_RING = "http.c: reply larger than the 1024-byte ring: g_realloc of a wrapped ring breaks the byte order / stale bytes are parsed"
-KF_TT_ZERO = "udp-turn-over-tcp.c: a frame with an empty payload issues a zero-size read; with more data pending the TCP socket reports end-of-stream, alone it is delivered"
-KF_SQ = "socket.c nice_socket_queue_send_with_callback: after a partial write ending in the second half of a buffer the start of the next buffer is skipped and uninitialised bytes are queued"
-KF_OVERREAD = "agent.c nice_agent_send_messages_nonblocking: >0xF800 split inside a non-last buffer reads past the end of that buffer"
-KF_ALIGN = "agent.c rfc4571 receive: 16-bit frame length loaded through a misaligned guint16* (undefined behaviour; aborts under -fsanitize=alignment)"
 
 
 def known_class(g, cuts, obs, ref):
@@ -628,9 +618,6 @@ def known_class(g, cuts, obs, ref):
             return KF_PSSL
         return None
     if g.layer == "turntcp":
-        msgs, status, z = ref_turntcp(g.info["mode"], s)
-        if status == "zero":
-            return KF_TT_ZERO
         return None
     if g.layer == "http":
         r = ref_http(s)
@@ -660,8 +647,6 @@ def expectation(g):
     s = g.stream
     if g.layer == "turntcp":
         msgs, status, z = ref_turntcp(g.info["mode"], s)
-        if status == "zero":
-            return None
         return {"ups": msgs, "err": status == "error"}
     if g.layer == "rfc4571":
         return {"ups": ref_rfc4571(s), "err": False}
@@ -716,36 +701,6 @@ def frames_rfc4571(bufs):
     return out
 
 
-def overread_case(bufs):
-    """does the agent.c split read past a buffer? (independent re-statement of the condition)"""
-    total = sum(len(b) for b in bufs)
-    off = 0
-    while off < total:
-        plen = min(total - off, 0xF800)
-        # buffer in which this packet starts
-        cur = 0
-        for j, b in enumerate(bufs):
-            if len(b) < off - cur:
-                cur += len(b); continue
-            oib = off - cur
-            if oib + min(len(b), plen) > len(b) and j < len(bufs):
-                return True
-            break
-        off += plen
-    return False
-
-
-def sq_corrupt_possible(bufs, accepted):
-    """socket.c quirk (independent re-statement): a partial write of `accepted` bytes ends at offset m inside
-    buffer j with m > size_j - m, and a later non-empty buffer exists"""
-    off = accepted
-    for j, b in enumerate(bufs):
-        if len(b) <= off:
-            off -= len(b); continue
-        return 2 * off > len(b) and any(len(x) for x in bufs[j + 1:])
-    return False
-
-
 def send_sessions(tier, rng):
     """returns list of (session, meta) for tcpbsd / rfc4571 / turntcp send paths"""
     S = []
@@ -786,10 +741,12 @@ def send_sessions(tier, rng):
         if rng.random() < 0.5:
             bufs = [rbytes(rng, tot)]
         else:
-            k = rng.randrange(1, min(tot, 0xF800))
+            k = rng.choice([rng.randrange(1, tot), 0xF900, 0xF800, 0xF7FF, 1])
+            k = min(k, tot - 1)
             bufs = [rbytes(rng, k), rbytes(rng, tot - k)]
-            if overread_case(bufs):
-                bufs = [rbytes(rng, tot)]
+            if rng.random() < 0.3:
+                j = rng.randrange(0, len(bufs[1]) + 1)
+                bufs = [bufs[0], bufs[1][:j], bufs[1][j:]]
         L = ["sock new rfc4571"]
         if rng.random() < .5:
             L.append(f"sock wrote {rng.randrange(0, 70000)}")
@@ -838,9 +795,8 @@ def turntcp_frame_ref(mode, bufs):
 
 
 def judge_send(L, out, meta):
-    """prefix / contiguity oracle on the implementation's output.  returns (reason|None, known_text|None)"""
+    """prefix / contiguity oracle on the implementation's output.  returns (reason|None, None)"""
     frames, wire = b"", b""
-    corrupt_possible = False
     for line, o in zip(L, out):
         p = parse_line(o)
         if p is None:
@@ -856,26 +812,12 @@ def judge_send(L, out, meta):
                     return f"frame on the wire differs from the reference encoding ({line[:60]})", None
                 continue
             if ret >= 1:
-                if meta["layer"] == "rfc4571":
-                    frames += frames_rfc4571(bufs)
-                    # the agent hands [2-byte header, buffers...] to the socket, one packet (<= 0xF800) at a time;
-                    # only the first packet can meet an empty queue and be written partially
-                    local, room = [b"\x00\x00"], 0xF800
-                    for b in bufs:
-                        local.append(b[:room]); room -= len(b[:room])
-                else:
-                    frames += b"".join(bufs)
-                    local = bufs
-                acc = len(p["down"][0]) if p["down"] else 0
-                if p["down"] and acc < sum(len(x) for x in local) and sq_corrupt_possible(local, acc):
-                    corrupt_possible = True
+                frames += frames_rfc4571(bufs) if meta["layer"] == "rfc4571" else b"".join(bufs)
         wire += b"".join(p["down"])
         if meta["layer"] != "turntcp" and not frames.startswith(wire):
-            return f"bytes accepted by the kernel are not a prefix of the accepted frames after `{line[:50]}`", \
-                (KF_SQ if corrupt_possible else None)
-    if meta["layer"] != "turntcp":
-        if wire != frames:
-            return "accepted frames were not written completely once the socket became writable", (KF_SQ if corrupt_possible else None)
+            return f"bytes accepted by the kernel are not a prefix of the accepted frames after `{line[:50]}`", None
+    if meta["layer"] != "turntcp" and wire != frames:
+        return "accepted frames were not written completely once the socket became writable", None
     return None, None
 
 
@@ -1112,18 +1054,7 @@ def run(tier, seed):
 
 
 def extra_known(chk, exe, known_texts, known, ofail):
-    """witnesses that abort the normal harness (ASan) or need the alignment-checking build"""
-    wdir = os.path.join(vlib.ROOT, "corpus", "C17", "abort")
-    # 1. agent.c over-read: must abort with a heap-buffer-overflow in the sanitised build (or, if fixed, run clean)
-    p = os.path.join(wdir, "rfc4571_send_overread.ops")
-    if os.path.exists(p):
-        L = [l.strip() for l in open(p) if l.strip() and not l.startswith("#")]
-        o, rc, er = vlib.run_lines(exe, L, timeout=300)
-        if len(o) != len(L):
-            if "heap-buffer-overflow" in er and "agent.c" in er and KF_OVERREAD in known_texts:
-                known(KF_OVERREAD, {"witness": "corpus/C17/abort/rfc4571_send_overread.ops"})
-            else:
-                ofail.append({"session": [l[:200] for l in L], "why": "send: implementation aborted on the >0xF800 multi-buffer witness", "stderr": er[-1500:]})
+    """recorded findings that need their own evaluation"""
     # 1b. HTTP ring growth: the same session with two different fills of uninitialised heap must not differ
     p = os.path.join(vlib.ROOT, "corpus", "C17", "http_ring_grow.ops")
     if os.path.exists(p):
@@ -1140,20 +1071,6 @@ def extra_known(chk, exe, known_texts, known, ofail):
             else:
                 ofail.append({"session": [l[:300] for l in L], "why": "http: outcome depends on the contents of uninitialised heap (malloc fill 0xBE vs 0x0A)",
                               "impl_out": [o1[-2][:300], o2[-2][:300]]})
-    # 2. misaligned loads: same source built WITH -fsanitize=alignment
-    p = os.path.join(wdir, "rfc4571_misaligned.ops")
-    if os.path.exists(p) and os.path.exists(os.path.join(vlib.HARNESS, "sock_drv_ub.c")):
-        ok, exe_ub, log = vlib.build_harness("sock_drv_ub", extra=EXTRA_UB, multidef=True)
-        if ok:
-            L = [l.strip() for l in open(p) if l.strip() and not l.startswith("#")]
-            o, rc, er = vlib.run_lines(exe_ub, L, timeout=300)
-            if len(o) != len(L):
-                if "misaligned address" in er and "agent.c" in er and KF_ALIGN in known_texts:
-                    known(KF_ALIGN, {"witness": "corpus/C17/abort/rfc4571_misaligned.ops"})
-                else:
-                    ofail.append({"session": L, "why": "rfc4571: implementation aborted on the alignment-checking build", "stderr": er[-1500:]})
-        else:
-            chk.note("sock_drv_ub build failed: " + log[-400:])
 
 
 def replay(path):
